@@ -258,12 +258,14 @@ class Subjac(object):
         dtype : dtype
             The type to set the subjacobian to.
         """
-        if dtype.kind == self.info['val'].dtype.kind:
-            return
-
+        # Always drop the cached vector views: our metadata is shared with the jacobians of our
+        # ancestors, so the value may already have been converted by one of them.
         self._in_view = None
         self._out_view = None
         self._res_view = None
+
+        if dtype.kind == self.info['val'].dtype.kind:
+            return
 
         if dtype.kind == 'f':
             self.info['val'] = np.ascontiguousarray(self.info['val'].real)
@@ -605,12 +607,14 @@ class SparseSubjac(Subjac):
         dtype : dtype
             The type to set the subjacobian to.
         """
-        if dtype.kind == self.info['val'].dtype.kind:
-            return
-
+        # Always drop the cached vector views: our metadata is shared with the jacobians of our
+        # ancestors, so the value may already have been converted by one of them.
         self._in_view = None
         self._out_view = None
         self._res_view = None
+
+        if dtype.kind == self.info['val'].dtype.kind:
+            return
 
         if dtype.kind == 'f':
             self.info['val'].data = np.ascontiguousarray(self.info['val'].data.real, dtype=dtype)
@@ -1193,12 +1197,14 @@ class OMCOOSubjac(COOSubjac):
         dtype : dtype
             The type to set the subjacobian to.
         """
-        if dtype.kind == self.info['val'].dtype.kind:
-            return
-
+        # Always drop the cached vector views: our metadata is shared with the jacobians of our
+        # ancestors, so the value may already have been converted by one of them.
         self._in_view = None
         self._out_view = None
         self._res_view = None
+
+        if dtype.kind == self.info['val'].dtype.kind:
+            return
 
         if dtype.kind == 'f':
             self.info['val'] = np.ascontiguousarray(self.info['val'].real, dtype=dtype)
@@ -1480,12 +1486,14 @@ class DiagonalSubjac(SparseSubjac):
         dtype : dtype
             The type to set the subjacobian to.
         """
-        if dtype.kind == self.info['val'].dtype.kind:
-            return
-
+        # Always drop the cached vector views: our metadata is shared with the jacobians of our
+        # ancestors, so the value may already have been converted by one of them.
         self._in_view = None
         self._out_view = None
         self._res_view = None
+
+        if dtype.kind == self.info['val'].dtype.kind:
+            return
 
         if dtype.kind == 'f':
             self.info['val'] = np.ascontiguousarray(self.info['val'].real, dtype=dtype)
